@@ -162,4 +162,248 @@ theorem dispatch_good (st : Static) (nodes : List AstNode) (d0 d d' : Defs) (f :
       refine ⟨v, c, b0, fun s2 ctx2 => ?_, hen, hck, henc⟩
       rw [pure_static_eval st d s2 ctx ctx2 _ hpure]; exact hev
 
+/-! ## through a node, a pass, the loop -/
+
+/-- the phase of the iteration: in the first pass the known constants met so far are marked; in
+    later passes all of them are -/
+def PhaseOK (st : Static) (nodes : List AstNode) (d0 : Defs) (first : Bool) (pre : List AstNode) (d : Defs) : Prop :=
+  if first = true then st.opts.optStatic = true ∧ K3 pre d0 d else K3 nodes d0 d
+
+theorem K3_mono (l : List AstNode) (d0 a b : Defs) (hres : ∀ r, (a.sym r).resolved = true → (b.sym r).resolved = true)
+    (h : K3 l d0 a) : K3 l d0 b := fun lv nm e ne r hm hk => hres r (h lv nm e ne r hm hk)
+
+theorem ctxAfter_snoc (st : Static) (sc : List String) (pre : List AstNode) (n : AstNode) :
+    ctxAfter st sc (pre ++ [n]) = stepCtx st (ctxAfter st sc pre) n := by
+  simp [ctxAfter]
+
+theorem passNode_good (st : Static) (nodes : List AstNode) (d0 : Defs) (f : FrontOK st nodes d0) (first last : Bool)
+    (pre : List AstNode) (n : AstNode) (post : List AstNode) (hsplit : nodes = pre ++ n :: post)
+    (ps ps' : PassSt) (k : Nat) (g : Good st nodes d0 ps.defs)
+    (hsc : stepCtx st ps.symCtx n = ctxAfter st [] (pre ++ [n]))
+    (ph : PhaseOK st nodes d0 first pre ps.defs)
+    (h : passNode st first last ps n k = .ok ps') :
+    Good st nodes d0 ps'.defs ∧ ps'.symCtx = ctxAfter st [] (pre ++ [n]) ∧ PhaseOK st nodes d0 first pre ps'.defs ∧
+      (first = true → ∀ l nm e ne r, n = .symbol l nm (.constant e) ne (some r) → (d0.sym r).known = true →
+        (ps'.defs.sym r).resolved = true) := by
+  rw [passNode_eq'] at h
+  split at h
+  · cases h
+  · rename_i it hv
+    split at h
+    · cases h
+    · rename_i defs stable reported hd
+      split at h
+      · cases h
+      · rename_i it' ha
+        injection h with h
+        subst h
+        simp only
+        have phase : (first = true ∧ st.opts.optStatic = true) ∨ (first = false ∧ K3 nodes d0 ps.defs) := by
+          unfold PhaseOK at ph
+          cases first with
+          | true => simp only [if_true] at ph; exact Or.inl ⟨rfl, ph.1⟩
+          | false => simp only [Bool.false_eq_true, if_false] at ph; exact Or.inr ⟨rfl, ph⟩
+        have g' := dispatch_good st nodes d0 ps.defs defs f pre n post hsplit
+          ⟨first, last, stepCtx st ps.symCtx n, it.bank, it.pos⟩ hsc k stable reported g phase hd
+        have sf := dispatch_symframe st ps.defs defs _ n k stable reported hd
+        refine ⟨g', hsc, ?_, ?_⟩
+        · unfold PhaseOK at ph ⊢
+          cases first with
+          | true =>
+            simp only [if_true] at ph ⊢
+            exact ⟨ph.1, K3_mono pre d0 ps.defs defs sf.res ph.2⟩
+          | false =>
+            simp only [Bool.false_eq_true, if_false] at ph ⊢
+            exact K3_mono nodes d0 ps.defs defs sf.res ph
+        · intro hf l nm e ne r hn hk
+          subst hn
+          subst hf
+          unfold PhaseOK at ph
+          simp only [if_true] at ph
+          have hdc : resolveConstant st ps.defs ⟨true, last, stepCtx st ps.symCtx (.symbol l nm (.constant e) ne (some r)), it.bank, it.pos⟩ r e
+              = .ok (defs, stable, reported) := by simpa [dispatch] using hd
+          have hkd : (ps.defs.sym r).known = true := by rw [g.kn r]; exact hk
+          rcases (resolveConstant_symframe st ps.defs defs _ l nm ne r e stable reported hdc).2 ph.1 rfl hkd with hl | hr
+          · exact absurd (sym_known_inrange ps.defs r hkd) (Nat.not_lt.mpr hl)
+          · exact hr
+
+theorem go_good (st : Static) (nodes : List AstNode) (d0 : Defs) (f : FrontOK st nodes d0) (first last : Bool)
+    (pre : List AstNode) (n : AstNode) (post : List AstNode) (hsplit : nodes = pre ++ n :: post) :
+    ∀ (fuel k : Nat) (ps ps' : PassSt), Good st nodes d0 ps.defs →
+      stepCtx st ps.symCtx n = ctxAfter st [] (pre ++ [n]) → PhaseOK st nodes d0 first pre ps.defs →
+      passNodes.go st first last n k fuel ps = .ok ps' →
+      Good st nodes d0 ps'.defs ∧ stepCtx st ps'.symCtx n = ctxAfter st [] (pre ++ [n]) ∧ PhaseOK st nodes d0 first pre ps'.defs ∧
+        (0 < fuel → ps'.symCtx = ctxAfter st [] (pre ++ [n])) ∧ (fuel = 0 → ps' = ps) ∧
+        (0 < fuel → first = true → ∀ l nm e ne r, n = .symbol l nm (.constant e) ne (some r) → (d0.sym r).known = true →
+          (ps'.defs.sym r).resolved = true) := by
+  intro fuel
+  induction fuel with
+  | zero =>
+    intro k ps ps' g hsc ph h
+    simp only [passNodes.go] at h
+    injection h with h; subst h
+    exact ⟨g, hsc, ph, fun h => absurd h (Nat.lt_irrefl 0), fun _ => rfl, fun h => absurd h (Nat.lt_irrefl 0)⟩
+  | succ fl ih =>
+    intro k ps ps' g hsc ph h
+    simp only [passNodes.go] at h
+    cases hp : passNode st first last ps n k with
+    | error m => rw [hp] at h; cases h
+    | ok ps1 =>
+      rw [hp] at h
+      simp only at h
+      obtain ⟨g1, sc1, ph1, r1⟩ := passNode_good st nodes d0 f first last pre n post hsplit ps ps1 k g hsc ph hp
+      have hsc1 : stepCtx st ps1.symCtx n = ctxAfter st [] (pre ++ [n]) := by
+        rw [sc1, ← hsc, stepCtx_idem]
+      obtain ⟨g2, sc2, ph2, c2, c3, r2⟩ := ih (k + 1) ps1 ps' g1 hsc1 ph1 h
+      refine ⟨g2, sc2, ph2, fun _ => ?_, fun h0 => (by cases h0), fun _ hf l nm e ne r hn hk => ?_⟩
+      · cases fl with
+        | zero => rw [c3 rfl]; exact sc1
+        | succ g => exact c2 (Nat.succ_pos g)
+      · cases fl with
+        | zero => rw [c3 rfl]; exact r1 hf l nm e ne r hn hk
+        | succ g => exact r2 (Nat.succ_pos g) hf l nm e ne r hn hk
+
+theorem passNodes_good (st : Static) (nodes : List AstNode) (d0 : Defs) (f : FrontOK st nodes d0) (first last : Bool) :
+    ∀ (rest pre : List AstNode) (ps ps' : PassSt), nodes = pre ++ rest → Good st nodes d0 ps.defs →
+      ps.symCtx = ctxAfter st [] pre → PhaseOK st nodes d0 first pre ps.defs →
+      passNodes st first last rest ps = .ok ps' →
+      Good st nodes d0 ps'.defs ∧ PhaseOK st nodes d0 first nodes ps'.defs := by
+  intro rest
+  induction rest with
+  | nil =>
+    intro pre ps ps' hs g _ ph h
+    simp only [passNodes] at h
+    injection h with h; subst h
+    have : pre = nodes := by rw [hs]; simp
+    rw [this] at ph
+    exact ⟨g, ph⟩
+  | cons n rest ih =>
+    intro pre ps ps' hs g hsc ph h
+    rw [passNodes_cons] at h
+    cases hg : passNodes.go st first last n 0 (nodeElems n) ps with
+    | error e => rw [hg] at h; cases h
+    | ok ps1 =>
+      rw [hg] at h
+      simp only at h
+      have hsc0 : stepCtx st ps.symCtx n = ctxAfter st [] (pre ++ [n]) := by rw [ctxAfter_snoc, hsc]
+      obtain ⟨g1, _, ph1, c1, c0, r1⟩ := go_good st nodes d0 f first last pre n rest hs (nodeElems n) 0 ps ps1 g hsc0 ph hg
+      have hsc1 : ps1.symCtx = ctxAfter st [] (pre ++ [n]) := by
+        cases hz : nodeElems n with
+        | zero =>
+          rw [c0 hz, hsc, ctxAfter_snoc, nodeElems_pos_of_symbol st _ n hz]
+        | succ m => exact c1 (by rw [hz]; exact Nat.succ_pos m)
+      have ph1' : PhaseOK st nodes d0 first (pre ++ [n]) ps1.defs := by
+        unfold PhaseOK at ph1 ⊢
+        cases first with
+        | false => simpa using ph1
+        | true =>
+          simp only [if_true] at ph1 ⊢
+          refine ⟨ph1.1, fun l nm e ne r hm hk => ?_⟩
+          rcases List.mem_append.mp hm with hm | hm
+          · exact ph1.2 l nm e ne r hm hk
+          · have hn : n = .symbol l nm (.constant e) ne (some r) := by
+              cases hm with
+              | head => rfl
+              | tail _ hm => cases hm
+            have hpos : 0 < nodeElems n := by rw [hn]; simp [nodeElems]
+            exact r1 hpos rfl l nm e ne r hn hk
+      exact ih (pre ++ [n]) ps1 ps' (by rw [hs]; simp) g1 hsc1 ph1' h
+
+theorem resolveOnce_good (st : Static) (nodes : List AstNode) (d0 : Defs) (f : FrontOK st nodes d0) (first last : Bool)
+    (d d' : Defs) (s : Bool) (rep : List String) (g : Good st nodes d0 d)
+    (ph : if first = true then st.opts.optStatic = true else K3 nodes d0 d)
+    (h : resolveOnce st nodes first last d = .ok (d', s, rep)) :
+    Good st nodes d0 d' ∧ K3 nodes d0 d' := by
+  unfold resolveOnce at h
+  cases hp : passNodes st first last nodes ⟨d, initIter d.banks, [], true, []⟩ with
+  | error e => rw [hp] at h; cases h
+  | ok ps' =>
+    rw [hp] at h
+    injection h with h; injection h with h1 _
+    have ph0 : PhaseOK st nodes d0 first [] d := by
+      unfold PhaseOK
+      cases first with
+      | true => simp only [if_true] at ph ⊢; exact ⟨ph, fun _ _ _ _ _ hm => by cases hm⟩
+      | false => simpa using ph
+    obtain ⟨g', ph'⟩ := passNodes_good st nodes d0 f first last nodes [] ⟨d, initIter d.banks, [], true, []⟩ ps' rfl g rfl ph0 hp
+    rw [← h1]
+    refine ⟨g', ?_⟩
+    unfold PhaseOK at ph'
+    cases first with
+    | true => simp only [if_true] at ph'; exact ph'.2
+    | false => simpa using ph'
+
+/-- **the invariant holds of every state the iteration returns** (static optimisation on, at least
+    one pass) -/
+theorem iterLoop_good (st : Static) (nodes : List AstNode) (d0 : Defs) (f : FrontOK st nodes d0) (max : Nat)
+    (ho : st.opts.optStatic = true) :
+    ∀ (fuel i : Nat) (d : Defs) (rep : List String) (k : Nat) (d' : Defs) (rep' : List String) (fin : Bool),
+      Good st nodes d0 d → (1 ≤ i → K3 nodes d0 d) → i + fuel = max → 1 ≤ max →
+      iterLoop st nodes max fuel i d rep = .ok (k, d', rep', fin) →
+      Good st nodes d0 d' ∧ K3 nodes d0 d' := by
+  intro fuel
+  induction fuel with
+  | zero =>
+    intro i d rep k d' rep' fin g hk hi hm h
+    simp only [iterLoop] at h
+    injection h with h; injection h with _ h; injection h with h2 _
+    subst h2
+    exact ⟨g, hk (by omega)⟩
+  | succ n ih =>
+    intro i d rep k d' rep' fin g hk hi hm h
+    have hlt : ¬ (i ≥ max) := by omega
+    simp only [iterLoop, hlt, if_false] at h
+    cases hp : resolveOnce st nodes (i + 1 == 1) (i + 1 == max) d with
+    | error e => rw [hp] at h; cases e; simp at h
+    | ok x =>
+      obtain ⟨d1, stable, r⟩ := x
+      rw [hp] at h
+      simp only at h
+      have ph : if (i + 1 == 1) = true then st.opts.optStatic = true else K3 nodes d0 d := by
+        by_cases h0 : i = 0
+        · subst h0; simp only [Nat.zero_add, beq_self_eq_true, if_true]; exact ho
+        · have : (i + 1 == 1) = false := by simp [h0]
+          simp only [this, Bool.false_eq_true, if_false]
+          exact hk (by omega)
+      obtain ⟨g1, k1⟩ := resolveOnce_good st nodes d0 f _ _ d d1 stable r g ph hp
+      cases stable with
+      | true =>
+        simp only [if_true] at h
+        split at h
+        · injection h with h; injection h with _ h; injection h with h2 _; subst h2; exact ⟨g1, k1⟩
+        · injection h with h; injection h with _ h; injection h with h2 _; subst h2; exact ⟨g1, k1⟩
+      | false =>
+        simp only [Bool.false_eq_true, if_false] at h
+        split at h
+        · cases h
+        · exact ih (i + 1) d1 (rep ++ r) k d' rep' fin g1 (fun _ => k1) (by omega) hm h
+
+theorem resolveIterativelyN_good (st : Static) (nodes : List AstNode) (d0 : Defs) (f : FrontOK st nodes d0) (max : Nat)
+    (ho : st.opts.optStatic = true) (hm : 1 ≤ max) (k : Nat) (d : Defs) (rep : List String)
+    (h : resolveIterativelyN st nodes max d0 = .ok (k, d, rep)) : Good st nodes d0 d := by
+  unfold resolveIterativelyN at h
+  cases hl : iterLoop st nodes max max 0 d0 [] with
+  | error e => rw [hl] at h; cases h
+  | ok x =>
+    obtain ⟨i, d1, rep1, fin⟩ := x
+    rw [hl] at h
+    obtain ⟨g1, k1⟩ := iterLoop_good st nodes d0 f max ho max 0 d0 [] i d1 rep1 fin (good_init st nodes d0 f)
+      (fun h0 => by omega) (by omega) hm hl
+    cases fin with
+    | true =>
+      simp only at h
+      injection h with h; injection h with _ h; injection h with h2 _; subst h2; exact g1
+    | false =>
+      simp only at h
+      cases hp : resolveOnce st nodes false true d1 with
+      | error e => rw [hp] at h; cases e; cases h
+      | ok y =>
+        obtain ⟨d2, stable, r⟩ := y
+        rw [hp] at h
+        simp only at h
+        split at h
+        · injection h with h; injection h with _ h; injection h with h2 _; subst h2
+          exact (resolveOnce_good st nodes d0 f false true d1 d2 stable r g1 (by simpa using k1) hp).1
+        · cases h
+
 end Casm
